@@ -540,3 +540,14 @@ package txmgr
 
 // the four pending-transaction buckets are four different buckets (distinct names under one store bucket)
 //@ define pendingBktsDistinct(tx, s) = (distinctBkts(tx, s.bucketMeta.nsUnmined, s.bucketMeta.nsUnminedInputs) && distinctBkts(tx, s.bucketMeta.nsUnmined, s.bucketMeta.nsUnminedCredits) && distinctBkts(tx, s.bucketMeta.nsUnmined, s.bucketMeta.nsUnminedGameHistory) && distinctBkts(tx, s.bucketMeta.nsUnminedInputs, s.bucketMeta.nsUnminedCredits) && distinctBkts(tx, s.bucketMeta.nsUnminedInputs, s.bucketMeta.nsUnminedGameHistory) && distinctBkts(tx, s.bucketMeta.nsUnminedCredits, s.bucketMeta.nsUnminedGameHistory))
+
+// ---- C19: helpers of the notification handler ----
+//@ func NewTxRecordFromMsgTx
+//@   props C19
+//@   requires msgTx != nil
+//@   ensures result1 == nil && result0 != nil && fresh(result0) && sameSlice(result0.MsgTx.TxOut, msgTx.TxOut) && sameSlice(result0.MsgTx.TxIn, msgTx.TxIn)
+//@   ensures len(result0.RelevantTxIn) == 0 && len(result0.RelevantTxOut) == 0 && fresh(result0.RelevantTxIn) && fresh(result0.RelevantTxOut)
+
+//@ func (*UtxoStore).ExistCreditFromTx
+//@   props C19
+//@   requires s != nil && rtx != nil && hash != nil
